@@ -131,6 +131,12 @@ func (e *Encoder) MaxDynamicTableSize() (v uint32) {
 func (e *Encoder) SetMaxDynamicTableSizeLimit(v uint32) {
 	e.maxSizeLimit = v
 	if e.dynTab.maxSize > v {
+		// The table shrinks (and evicts) right here, so this size is part of what
+		// must be signalled: RFC 7541 section 4.2 wants the smallest size reached
+		// since the last header block sent before the final one.
+		if v < e.minSize {
+			e.minSize = v
+		}
 		e.tableSizeUpdate = true
 		e.dynTab.setMaxSize(v)
 	}
